@@ -234,6 +234,20 @@ def run(ctx: Ctx, env):
                 pass
             t = T.norm(p.value)
             got = logic.conv(t)
+            if label == "django":
+                # the subquery over the related model is tied to the outer row through the reversed path = OuterRef('pk'): Django resolves
+                # only the alias `pk` (lower case) to the parent's primary key, whatever it is called
+                rt = repr(t)
+                n_ref = rt.count("('ref', 'django.db.models.OuterRef')")
+                n_pk = rt.count("('ref', 'django.db.models.OuterRef'), (('const', 'pk'),), ())")
+                rev_key = "'**', ('dict', (), ((('sym', 'elem', ('call', ('ref', 'odata_query.django.utils.reverse_relationship')" in rt
+                if n_ref == 0 or not rev_key:
+                    raise AnalysisError("django: the EXISTS subquery is not tied to the outer row in the form Q(**{<reversed path>: OuterRef(...)}) "
+                                        f"that this rule understands: `{T.show(t, 160)}`", hci.module.loc(fn))
+                ctx.check(n_ref == n_pk, "R2.subquery-correlated-with-the-outer-row", f"{label}|{p.cond_str()[-60:]}",
+                          "the EXISTS subquery must be filtered by Q(**{<reversed relationship path>: OuterRef('pk')}); it is built as "
+                          f"`{T.show(t, 200)}`: rows of other parents satisfy the quantifier (or the query fails to resolve the reference)",
+                          hci.module.loc(fn), "authors/any(a: a/name eq 'x')")
             for op in sorted(ops):
                 if (op, has_lambda) not in SPEC:
                     continue  # all() without a lambda is not in the grammar
